@@ -5,6 +5,8 @@ An abstract string is a sequence of segments
     Int(sym)             decimal digits of a non-negative integer `sym`,
                          of symbolic length L(sym) >= 1, containing no '_'
     Rest(sym)            an arbitrary string (may contain '__')
+    Ident(sym)           a parameter name: non-empty, symbolic length L(sym),
+                         containing no '__' (scikit-learn's own convention)
 Integers are linear forms  c0 + sum c_s * L(s)  (lengths), or the symbolic
 integer value IntVal(sym) produced by int(Int(sym)).
 
@@ -36,6 +38,11 @@ class Int:
 
 @dataclass(frozen=True)
 class Rest:
+    sym: str
+
+
+@dataclass(frozen=True)
+class Ident:
     sym: str
 
 
@@ -109,7 +116,7 @@ def _drop_prefix(s: AStr, n: ALen) -> AStr:
                 const = 0
             else:
                 raise Unknown("slice offset falls inside a literal while symbolic length remains")
-        elif isinstance(h, Int):
+        elif isinstance(h, (Int, Ident)):
             if coef.get(h.sym, 0) == 1:
                 del coef[h.sym]
                 segs.pop(0)
@@ -175,7 +182,7 @@ def evaluate(e: ast.AST, env: Dict[str, object]):
                 for s in x.segs:
                     if isinstance(s, Lit):
                         tot = tot + ALen(len(s.text))
-                    elif isinstance(s, Int):
+                    elif isinstance(s, (Int, Ident)):
                         tot = tot + ALen(0, ((s.sym, 1),))
                     else:
                         raise Unknown("len of arbitrary segment")
@@ -226,6 +233,31 @@ def evaluate(e: ast.AST, env: Dict[str, object]):
                         return _drop_prefix(recv, ALen(len(t)))
                 raise Unknown("removeprefix")
         raise Unknown(f"call {ast.unparse(e)}")
+    if isinstance(e, ast.Compare) and len(e.ops) == 1:
+        # k == "lit", k != "lit", k in ("a", "b"), k not in (...): decided when
+        # the known prefix of the abstract string already excludes the literal
+        op, right = e.ops[0], e.comparators[0]
+        left = evaluate(e.left, env)
+        if isinstance(left, AStr) and isinstance(op, (ast.Eq, ast.NotEq, ast.In, ast.NotIn)):
+            if isinstance(op, (ast.Eq, ast.NotEq)):
+                cands = [right]
+            elif isinstance(right, (ast.Tuple, ast.List, ast.Set)):
+                cands = list(right.elts)
+            else:
+                raise Unknown("membership in a non-literal container")
+            verdicts = []
+            for c in cands:
+                if not (isinstance(c, ast.Constant) and isinstance(c.value, str)):
+                    raise Unknown("comparison with a non-literal")
+                verdicts.append(_equals(left, c.value))
+            if all(v is False for v in verdicts):
+                res = False
+            elif any(v is True for v in verdicts):
+                res = True
+            else:
+                raise Unknown("comparison undecided for the abstract key")
+            return (not res) if isinstance(op, (ast.NotEq, ast.NotIn)) else res
+        raise Unknown("comparison")
     if isinstance(e, ast.Subscript):
         base = evaluate(e.value, env)
         sl = e.slice
@@ -274,16 +306,36 @@ def _take(s: AStr, n: ALen) -> AStr:
                 const = 0
             else:
                 raise Unknown("take")
-        elif isinstance(h, Int) and coef.get(h.sym, 0) == 1:
+        elif isinstance(h, (Int, Ident)) and coef.get(h.sym, 0) == 1:
             del coef[h.sym]
             out.append(h)
-        elif isinstance(h, Int):
+        elif isinstance(h, (Int, Ident)):
             raise Mismatch(f"length {n} does not account for the length of {{{h.sym}}}")
         else:
             raise Unknown("take reaches arbitrary segment")
     if const or coef:
         raise Unknown("take exceeds string")
     return mk(*out)
+
+
+def _equals(s: AStr, t: str):
+    """True / False when definite, None otherwise."""
+    if all(isinstance(x, Lit) for x in s.segs):
+        return "".join(x.text for x in s.segs) == t
+    try:
+        if _startswith(s, t) is False:
+            return False
+    except Unknown:
+        pass
+    # literal segments that must occur in order
+    pos = 0
+    for x in s.segs:
+        if isinstance(x, Lit):
+            j = t.find(x.text, pos)
+            if j < 0:
+                return False
+            pos = j + len(x.text)
+    return None
 
 
 def _startswith(s: AStr, t: str):
@@ -327,6 +379,10 @@ def _split_first(s: AStr, sep: str) -> Tuple[AStr, AStr]:
         elif isinstance(seg, Int):
             if any(ch.isdigit() for ch in sep):
                 raise Unknown("separator may occur in digits")
+            before.append(seg)
+        elif isinstance(seg, Ident):
+            if sep != "__":
+                raise Unknown("separator may occur in a parameter name")
             before.append(seg)
         else:
             raise Unknown("split reaches an arbitrary segment before any separator")
